@@ -37,9 +37,9 @@ def rh_inputs(ctx, v):
     invalid = pre + body[:-1] + "q"
     missing = pre + "/".join(body.split("/")[:-1])
     scores = [
-        (BASE, "same"), ("7.50", "same"), (" 7.5", "same"), ("7.5 ", "same"), ("+7.5", "same"), ("07.5", "same"), ("75e-1", "same"),
+        (BASE, "same"), ("7.50", "same"), (" 7.5", "same"), ("7.5 ", "same"), ("+7.5", "same"), ("07.5", "same"), ("75e-1", "same"), ("7.50000000000000000000001", "same"),
         ("7.4", "other"), ("7.6", "other"), ("8", "other"), ("0", "other"), ("-7.5", "other"), ("nan", "other"), ("inf", "other"), ("7.5000001", "other"),
-        ("", "bad"), (" ", "bad"), ("abc", "bad"), ("7,5", "bad"), ("7.5.0", "bad"), ("7.5a", "bad"), ("CVSS", "bad"), ("0x7", "bad"),
+        ("", "bad"), (" ", "bad"), ("abc", "bad"), ("7,5", "bad"), ("7.5.0", "bad"), ("7.5a", "bad"), ("CVSS", "bad"), ("0x7", "bad"), ("snan", "bad"), ("nan123", "bad"),
     ]
     out = []
     for stxt, skind in scores:
@@ -48,7 +48,9 @@ def rh_inputs(ctx, v):
             tok = token_of(ctx, v, vec)
             vk = tok[0]
             if skind == "bad":
-                exp = ("malformed",) if vk == "valid" else ("malformed-or-vector", vk)
+                # the format of the notation is checked first: a missing or non-numeric score part is
+                # the RH-malformed error whatever follows the '/'
+                exp = ("malformed",)
             elif vk != "valid":
                 exp = ("vector", vk)
             elif skind == "same":
@@ -83,6 +85,7 @@ class RHSemantics(object):
         ev.construct_hook = self.construct_hook
         ev.event_dom = True
         ev.method_hook = self.method_hook
+        ev.attr_hook = self.attr_hook
         self.faults = []
         st = ev.new_state()
         st.dom["rh"] = self.strings
@@ -139,6 +142,19 @@ class RHSemantics(object):
             fo = st.folder()
             arg = fo.restrict(arg) if isinstance(arg, Fin) else arg
         return Const(tok(arg.v)) if isinstance(arg, Const) else fo.fold(tok, [arg])
+
+    def attr_hook(self, st, base, name, node, module):
+        from fractions import Fraction
+
+        from .consteval import Dec
+
+        if not self.is_token(base) or (isinstance(base, Const) and base.v is None):
+            return None
+        if name == "base_score":
+            return Const(Dec(Fraction(BASE), BASE))
+        if name in ("temporal_score", "environmental_score", "vector", "metrics", "original_metrics"):
+            return Opaque("attr:" + name)
+        return None
 
     def method_hook(self, st, recv, name, args, kwargs, node, module):
         from fractions import Fraction
